@@ -3,7 +3,7 @@ import itertools, json
 from fractions import Fraction
 import numpy as np
 from harness import votelib as V
-from harness.common import pmap, lean_query, guard, fr
+from harness.common import pmap, lean_query, guard, fr, safe_judge
 from harness.c01 import chunks
 
 LEVEL = "proof"
@@ -34,6 +34,7 @@ def lean_line(it):
     return " ".join(["eat", str(n)] + [str(v) for row in it["P"] for v in row] + [str(s) for s in it["speeds"]])
 
 
+@safe_judge
 def judge(R, it, res, ans):
     P, speeds = it["P"], it["speeds"]
     n = len(P)
